@@ -153,5 +153,8 @@ func HarnessC09Ops() {
 // HarnessC09OpsSym: same body with symbolic file bytes (parameters in spec.json).
 func HarnessC09OpsSym() { HarnessC09Ops() }
 
+// HarnessC09OpsSmall: same body on the degenerate files (empty, single leaf = root, two leaves).
+func HarnessC09OpsSmall() { HarnessC09Ops() }
+
 // HarnessC09Ops3: same body, three operations on fewer file shapes.
 func HarnessC09Ops3() { HarnessC09Ops() }
